@@ -288,7 +288,8 @@ pub fn run_given(prop: &str, tier: Tier, pl: crate::catalogue::Plan, replay_offs
             ex.stats.cap.as_ref().map(|c| format!(" CAP: {c}")).unwrap_or_default()
         );
         // determinism: thorough tier re-runs cheap explorations and compares digests
-        if tier == Tier::Thorough && ex.stats.wall_s < 20.0 {
+        // (every cheap scenario outside the value sweep, and the first 64 of the sweep's several thousand)
+        if tier == Tier::Thorough && ex.stats.wall_s < 20.0 && (!scen.name.starts_with("sweep/") || rep.rerun_checked < 64) {
             match explore(scen, &hooks, &caps) {
                 Ok(e2) => {
                     if e2.stats.digest != ex.stats.digest || e2.stats.states != ex.stats.states || e2.stats.accepted != ex.stats.accepted {
